@@ -271,8 +271,9 @@ theorem insertKnot_eq [FloorRing K] (b : Basis K) (x0 : K) :
       (match wrapX b x0 with
        | .error e => .error e
        | .ok x =>
-         if idxErr b x (b.bisectR x) then .error .index
+         if (b.knots.size : Int) - (b.order : Int) - (b.periodic + 1) < 0 then .error .value
          else if b.numFunctions = 0 then .error .zeroDiv
+         else if idxErr b x (b.bisectR x) then .error .index
          else .ok ({ b with knots := repair b (Basis.insertAt b.knots (b.bisectR x) x) (b.bisectR x) },
                    matC b.kn x b.numFunctions b.order (b.bisectR x))) := by
   rfl
